@@ -1,15 +1,16 @@
 /-
-  C07, part 4 — end to end for representative register forms: decode (regenerated dispatch) + handler
-  (model) = the Spec's instruction, for every encoding of the form, every register file, every CCR.
+  C07, part 4 — end to end: decode (regenerated dispatch) + handler (model) = the Spec's instruction.
 
-  `exec_eq_*` compose the routing theorems of C07R with `leafHandler`; the `*_exec` theorems then compose
-  them with the handler theorems of C01–C03.  Together: if `Cpu::exec` (as modelled) completes on a word that
-  matches the form, the state it leaves is the one the manual prescribes for exactly that instruction.
+  For every single-word form whose handler theorem is proved in C01–C04 (89 forms): for every word that matches the
+  form, every register file and every CCR, if `Cpu::exec` (as modelled) completes, the state it leaves is the one
+  the manual prescribes for exactly the instruction the word encodes — `exec_eq_F` composes the routing theorem of
+  C07R with `leafHandler`, `F_exec` composes that with the handler theorem.
 -/
 import H8.Props.C07R
 import H8.Props.C01
 import H8.Props.C02
 import H8.Props.C03
+import H8.Props.C04H
 namespace H8.Props.C07E
 open H8 H8.Spec H8.Props
 
@@ -17,57 +18,492 @@ theorem runLeaf_some (n : Nat) (l : Gen.Leaf) (op op2 : BitVec 16) (h : M (BitVe
     (hl : leafHandler l op op2 = some h) : runLeaf (n + 1) l op op2 = h := by
   unfold runLeaf; rw [hl]
 
-theorem runLeaf_add_b (n : Nat) (op op2 : BitVec 16) :
-    runLeaf (n + 1) .add_b__opcode op op2 = runLeaf n (Gen.add_b_route op) op op2 := rfl
-
-theorem runLeaf_mov_b (n : Nat) (op op2 : BitVec 16) :
-    runLeaf (n + 1) .mov_b__opcode op op2 = runLeaf n (Gen.mov_b_route op) op op2 := rfl
-
 /-- single-level dispatch: `exec_route` names a leaf that has a handler -/
 theorem exec_of_leaf (op : BitVec 16) (l : Gen.Leaf) (h : M (BitVec 8))
     (h1 : Gen.exec_route op = l) (hl : leafHandler l op 0 = some h) : exec op = h := by
   show runLeaf (5 + 1) (Gen.exec_route op) op 0 = h
   rw [h1, runLeaf_some 5 l op 0 h hl]
 
-/-- two-level dispatch through `add_b` -/
-theorem exec_of_add_b (op : BitVec 16) (l : Gen.Leaf) (h : M (BitVec 8))
-    (h1 : Gen.exec_route op = .add_b__opcode) (h2 : Gen.add_b_route op = l)
-    (hl : leafHandler l op 0 = some h) : exec op = h := by
-  show runLeaf (5 + 1) (Gen.exec_route op) op 0 = h
-  rw [h1, runLeaf_add_b, h2, runLeaf_some 4 l op 0 h hl]
-
-/-- two-level dispatch through `mov_b` -/
+theorem runLeaf_mov_b (n : Nat) (op op2 : BitVec 16) :
+    runLeaf (n + 1) .mov_b__opcode op op2 = runLeaf n (Gen.mov_b_route op) op op2 := rfl
 theorem exec_of_mov_b (op : BitVec 16) (l : Gen.Leaf) (h : M (BitVec 8))
     (h1 : Gen.exec_route op = .mov_b__opcode) (h2 : Gen.mov_b_route op = l)
     (hl : leafHandler l op 0 = some h) : exec op = h := by
   show runLeaf (5 + 1) (Gen.exec_route op) op 0 = h
   rw [h1, runLeaf_mov_b, h2, runLeaf_some 4 l op 0 h hl]
 
-theorem exec_eq_ADD_B_RR (w0 : BitVec 16) (hp : Form.pat .ADD_B_RR w0 0 0 0 0 = true) : exec w0 = addBRn w0 := by
-  obtain ⟨h1, h2⟩ := C07R.route_ADD_B_RR w0 0 0 0 0 hp
-  exact exec_of_add_b w0 _ _ h1 h2 rfl
+theorem runLeaf_mov_w (n : Nat) (op op2 : BitVec 16) :
+    runLeaf (n + 1) .mov_w__opcode op op2 = runLeaf n (Gen.mov_w_route op) op op2 := rfl
+theorem exec_of_mov_w (op : BitVec 16) (l : Gen.Leaf) (h : M (BitVec 8))
+    (h1 : Gen.exec_route op = .mov_w__opcode) (h2 : Gen.mov_w_route op = l)
+    (hl : leafHandler l op 0 = some h) : exec op = h := by
+  show runLeaf (5 + 1) (Gen.exec_route op) op 0 = h
+  rw [h1, runLeaf_mov_w, h2, runLeaf_some 4 l op 0 h hl]
+
+theorem runLeaf_mov_l (n : Nat) (op op2 : BitVec 16) :
+    runLeaf (n + 1) .mov_l__opcode op op2 = runLeaf n (Gen.mov_l_route op) op op2 := rfl
+theorem exec_of_mov_l (op : BitVec 16) (l : Gen.Leaf) (h : M (BitVec 8))
+    (h1 : Gen.exec_route op = .mov_l__opcode) (h2 : Gen.mov_l_route op = l)
+    (hl : leafHandler l op 0 = some h) : exec op = h := by
+  show runLeaf (5 + 1) (Gen.exec_route op) op 0 = h
+  rw [h1, runLeaf_mov_l, h2, runLeaf_some 4 l op 0 h hl]
+
+theorem runLeaf_add_b (n : Nat) (op op2 : BitVec 16) :
+    runLeaf (n + 1) .add_b__opcode op op2 = runLeaf n (Gen.add_b_route op) op op2 := rfl
+theorem exec_of_add_b (op : BitVec 16) (l : Gen.Leaf) (h : M (BitVec 8))
+    (h1 : Gen.exec_route op = .add_b__opcode) (h2 : Gen.add_b_route op = l)
+    (hl : leafHandler l op 0 = some h) : exec op = h := by
+  show runLeaf (5 + 1) (Gen.exec_route op) op 0 = h
+  rw [h1, runLeaf_add_b, h2, runLeaf_some 4 l op 0 h hl]
+
+theorem runLeaf_add_w (n : Nat) (op op2 : BitVec 16) :
+    runLeaf (n + 1) .add_w__opcode op op2 = runLeaf n (Gen.add_w_route op) op op2 := rfl
+theorem exec_of_add_w (op : BitVec 16) (l : Gen.Leaf) (h : M (BitVec 8))
+    (h1 : Gen.exec_route op = .add_w__opcode) (h2 : Gen.add_w_route op = l)
+    (hl : leafHandler l op 0 = some h) : exec op = h := by
+  show runLeaf (5 + 1) (Gen.exec_route op) op 0 = h
+  rw [h1, runLeaf_add_w, h2, runLeaf_some 4 l op 0 h hl]
+
+theorem runLeaf_add_l (n : Nat) (op op2 : BitVec 16) :
+    runLeaf (n + 1) .add_l__opcode op op2 = runLeaf n (Gen.add_l_route op) op op2 := rfl
+theorem exec_of_add_l (op : BitVec 16) (l : Gen.Leaf) (h : M (BitVec 8))
+    (h1 : Gen.exec_route op = .add_l__opcode) (h2 : Gen.add_l_route op = l)
+    (hl : leafHandler l op 0 = some h) : exec op = h := by
+  show runLeaf (5 + 1) (Gen.exec_route op) op 0 = h
+  rw [h1, runLeaf_add_l, h2, runLeaf_some 4 l op 0 h hl]
+
+theorem runLeaf_sub_w (n : Nat) (op op2 : BitVec 16) :
+    runLeaf (n + 1) .sub_w__opcode op op2 = runLeaf n (Gen.sub_w_route op) op op2 := rfl
+theorem exec_of_sub_w (op : BitVec 16) (l : Gen.Leaf) (h : M (BitVec 8))
+    (h1 : Gen.exec_route op = .sub_w__opcode) (h2 : Gen.sub_w_route op = l)
+    (hl : leafHandler l op 0 = some h) : exec op = h := by
+  show runLeaf (5 + 1) (Gen.exec_route op) op 0 = h
+  rw [h1, runLeaf_sub_w, h2, runLeaf_some 4 l op 0 h hl]
+
+theorem runLeaf_sub_l (n : Nat) (op op2 : BitVec 16) :
+    runLeaf (n + 1) .sub_l__opcode op op2 = runLeaf n (Gen.sub_l_route op) op op2 := rfl
+theorem exec_of_sub_l (op : BitVec 16) (l : Gen.Leaf) (h : M (BitVec 8))
+    (h1 : Gen.exec_route op = .sub_l__opcode) (h2 : Gen.sub_l_route op = l)
+    (hl : leafHandler l op 0 = some h) : exec op = h := by
+  show runLeaf (5 + 1) (Gen.exec_route op) op 0 = h
+  rw [h1, runLeaf_sub_l, h2, runLeaf_some 4 l op 0 h hl]
+
+theorem runLeaf_bcc (n : Nat) (op op2 : BitVec 16) :
+    runLeaf (n + 1) .bcc__opcode op op2 = runLeaf n (Gen.bcc_route op) op op2 := rfl
+theorem exec_of_bcc (op : BitVec 16) (l : Gen.Leaf) (h : M (BitVec 8))
+    (h1 : Gen.exec_route op = .bcc__opcode) (h2 : Gen.bcc_route op = l)
+    (hl : leafHandler l op 0 = some h) : exec op = h := by
+  show runLeaf (5 + 1) (Gen.exec_route op) op 0 = h
+  rw [h1, runLeaf_bcc, h2, runLeaf_some 4 l op 0 h hl]
+
+theorem runLeaf_jmp (n : Nat) (op op2 : BitVec 16) :
+    runLeaf (n + 1) .jmp__opcode op op2 = runLeaf n (Gen.jmp_route op) op op2 := rfl
+theorem exec_of_jmp (op : BitVec 16) (l : Gen.Leaf) (h : M (BitVec 8))
+    (h1 : Gen.exec_route op = .jmp__opcode) (h2 : Gen.jmp_route op = l)
+    (hl : leafHandler l op 0 = some h) : exec op = h := by
+  show runLeaf (5 + 1) (Gen.exec_route op) op 0 = h
+  rw [h1, runLeaf_jmp, h2, runLeaf_some 4 l op 0 h hl]
+
+theorem runLeaf_jsr (n : Nat) (op op2 : BitVec 16) :
+    runLeaf (n + 1) .jsr__opcode op op2 = runLeaf n (Gen.jsr_route op) op op2 := rfl
+theorem exec_of_jsr (op : BitVec 16) (l : Gen.Leaf) (h : M (BitVec 8))
+    (h1 : Gen.exec_route op = .jsr__opcode) (h2 : Gen.jsr_route op = l)
+    (hl : leafHandler l op 0 = some h) : exec op = h := by
+  show runLeaf (5 + 1) (Gen.exec_route op) op 0 = h
+  rw [h1, runLeaf_jsr, h2, runLeaf_some 4 l op 0 h hl]
 
 theorem exec_eq_MOV_B_RR (w0 : BitVec 16) (hp : Form.pat .MOV_B_RR w0 0 0 0 0 = true) : exec w0 = movRn .B w0 := by
   obtain ⟨h1, h2⟩ := C07R.route_MOV_B_RR w0 0 0 0 0 hp
   exact exec_of_mov_b w0 _ _ h1 h2 rfl
 
-theorem exec_eq_SHLL_B (w0 : BitVec 16) (hp : Form.pat .SHLL_B w0 0 0 0 0 = true) : exec w0 = shift .shll .B w0 := by
-  exact exec_of_leaf w0 _ _ (C07R.route_SHLL_B w0 0 0 0 0 hp) rfl
+theorem MOV_B_RR_exec (w0 : BitVec 16) (st st' : Cpu) (c : BitVec 8) (i : Instr)
+    (hp : Form.pat .MOV_B_RR w0 0 0 0 0 = true) (hi : instrOf .MOV_B_RR w0 0 0 0 0 = some i)
+    (h : exec w0 st = .ok c st') :
+    st' = { st with regs := (specRegCcr i st).1, ccr := (specRegCcr i st).2 } := by
+  rw [exec_eq_MOV_B_RR w0 hp] at h
+  exact C01.MOV_B_RR w0 st st' c i hi hp h
 
-theorem exec_eq_NOT_B (w0 : BitVec 16) (hp : Form.pat .NOT_B w0 0 0 0 0 = true) : exec w0 = unary .B notProc w0 := by
-  exact exec_of_leaf w0 _ _ (C07R.route_NOT_B w0 0 0 0 0 hp) rfl
+theorem exec_eq_MOV_W_RR (w0 : BitVec 16) (hp : Form.pat .MOV_W_RR w0 0 0 0 0 = true) : exec w0 = movRn .W w0 := by
+  obtain ⟨h1, h2⟩ := C07R.route_MOV_W_RR w0 0 0 0 0 hp
+  exact exec_of_mov_w w0 _ _ h1 h2 rfl
 
-theorem exec_eq_INC_B (w0 : BitVec 16) (hp : Form.pat .INC_B w0 0 0 0 0 = true) : exec w0 = inc .B 1 w0 := by
-  exact exec_of_leaf w0 _ _ (C07R.route_INC_B w0 0 0 0 0 hp) rfl
+theorem MOV_W_RR_exec (w0 : BitVec 16) (st st' : Cpu) (c : BitVec 8) (i : Instr)
+    (hp : Form.pat .MOV_W_RR w0 0 0 0 0 = true) (hi : instrOf .MOV_W_RR w0 0 0 0 0 = some i)
+    (h : exec w0 st = .ok c st') :
+    st' = { st with regs := (specRegCcr i st).1, ccr := (specRegCcr i st).2 } := by
+  rw [exec_eq_MOV_W_RR w0 hp] at h
+  exact C01.MOV_W_RR w0 st st' c i hi hp h
 
-/-- **ADD.B Rs,Rd, decode included**: any word matching the form, any state — if `exec` completes, registers
-    and CCR are the Spec's for the instruction the word encodes, and nothing else changed. -/
+theorem exec_eq_MOV_L_RR (w0 : BitVec 16) (hp : Form.pat .MOV_L_RR w0 0 0 0 0 = true) : exec w0 = movRn .L w0 := by
+  obtain ⟨h1, h2⟩ := C07R.route_MOV_L_RR w0 0 0 0 0 hp
+  exact exec_of_mov_l w0 _ _ h1 h2 rfl
+
+theorem MOV_L_RR_exec (w0 : BitVec 16) (st st' : Cpu) (c : BitVec 8) (i : Instr)
+    (hp : Form.pat .MOV_L_RR w0 0 0 0 0 = true) (hi : instrOf .MOV_L_RR w0 0 0 0 0 = some i)
+    (h : exec w0 st = .ok c st') :
+    st' = { st with regs := (specRegCcr i st).1, ccr := (specRegCcr i st).2 } := by
+  rw [exec_eq_MOV_L_RR w0 hp] at h
+  exact C01.MOV_L_RR w0 st st' c i hi hp h
+
+theorem exec_eq_MOV_B_IMM (w0 : BitVec 16) (hp : Form.pat .MOV_B_IMM w0 0 0 0 0 = true) : exec w0 = movImm .B w0 := by
+  obtain ⟨h1, h2⟩ := C07R.route_MOV_B_IMM w0 0 0 0 0 hp
+  exact exec_of_mov_b w0 _ _ h1 h2 rfl
+
+theorem MOV_B_IMM_exec (w0 : BitVec 16) (st st' : Cpu) (c : BitVec 8) (i : Instr)
+    (hp : Form.pat .MOV_B_IMM w0 0 0 0 0 = true) (hi : instrOf .MOV_B_IMM w0 0 0 0 0 = some i)
+    (h : exec w0 st = .ok c st') :
+    st' = { st with regs := (specRegCcr i st).1, ccr := (specRegCcr i st).2 } := by
+  rw [exec_eq_MOV_B_IMM w0 hp] at h
+  exact C01.MOV_B_IMM w0 st st' c i hi hp h
+
+theorem exec_eq_ADD_B_RR (w0 : BitVec 16) (hp : Form.pat .ADD_B_RR w0 0 0 0 0 = true) : exec w0 = addBRn w0 := by
+  obtain ⟨h1, h2⟩ := C07R.route_ADD_B_RR w0 0 0 0 0 hp
+  exact exec_of_add_b w0 _ _ h1 h2 rfl
+
 theorem ADD_B_RR_exec (w0 : BitVec 16) (st st' : Cpu) (c : BitVec 8) (i : Instr)
     (hp : Form.pat .ADD_B_RR w0 0 0 0 0 = true) (hi : instrOf .ADD_B_RR w0 0 0 0 0 = some i)
     (h : exec w0 st = .ok c st') :
     st' = { st with regs := (specRegCcr i st).1, ccr := (specRegCcr i st).2 } := by
   rw [exec_eq_ADD_B_RR w0 hp] at h
   exact C02.ADD_B_RR w0 st st' c i hi h
+
+theorem exec_eq_ADD_W_RR (w0 : BitVec 16) (hp : Form.pat .ADD_W_RR w0 0 0 0 0 = true) : exec w0 = addWRn w0 := by
+  obtain ⟨h1, h2⟩ := C07R.route_ADD_W_RR w0 0 0 0 0 hp
+  exact exec_of_add_w w0 _ _ h1 h2 rfl
+
+theorem ADD_W_RR_exec (w0 : BitVec 16) (st st' : Cpu) (c : BitVec 8) (i : Instr)
+    (hp : Form.pat .ADD_W_RR w0 0 0 0 0 = true) (hi : instrOf .ADD_W_RR w0 0 0 0 0 = some i)
+    (h : exec w0 st = .ok c st') :
+    st' = { st with regs := (specRegCcr i st).1, ccr := (specRegCcr i st).2 } := by
+  rw [exec_eq_ADD_W_RR w0 hp] at h
+  exact C02.ADD_W_RR w0 st st' c i hi h
+
+theorem exec_eq_SUB_B_RR (w0 : BitVec 16) (hp : Form.pat .SUB_B_RR w0 0 0 0 0 = true) : exec w0 = subB w0 := by
+  exact exec_of_leaf w0 _ _ (C07R.route_SUB_B_RR w0 0 0 0 0 hp) rfl
+
+theorem SUB_B_RR_exec (w0 : BitVec 16) (st st' : Cpu) (c : BitVec 8) (i : Instr)
+    (hp : Form.pat .SUB_B_RR w0 0 0 0 0 = true) (hi : instrOf .SUB_B_RR w0 0 0 0 0 = some i)
+    (h : exec w0 st = .ok c st') :
+    st' = { st with regs := (specRegCcr i st).1, ccr := (specRegCcr i st).2 } := by
+  rw [exec_eq_SUB_B_RR w0 hp] at h
+  exact C02.SUB_B_RR w0 st st' c i hi h
+
+theorem exec_eq_SUB_W_RR (w0 : BitVec 16) (hp : Form.pat .SUB_W_RR w0 0 0 0 0 = true) : exec w0 = subWRn w0 := by
+  obtain ⟨h1, h2⟩ := C07R.route_SUB_W_RR w0 0 0 0 0 hp
+  exact exec_of_sub_w w0 _ _ h1 h2 rfl
+
+theorem SUB_W_RR_exec (w0 : BitVec 16) (st st' : Cpu) (c : BitVec 8) (i : Instr)
+    (hp : Form.pat .SUB_W_RR w0 0 0 0 0 = true) (hi : instrOf .SUB_W_RR w0 0 0 0 0 = some i)
+    (h : exec w0 st = .ok c st') :
+    st' = { st with regs := (specRegCcr i st).1, ccr := (specRegCcr i st).2 } := by
+  rw [exec_eq_SUB_W_RR w0 hp] at h
+  exact C02.SUB_W_RR w0 st st' c i hi h
+
+theorem exec_eq_CMP_B_RR (w0 : BitVec 16) (hp : Form.pat .CMP_B_RR w0 0 0 0 0 = true) : exec w0 = cmpBRn w0 := by
+  exact exec_of_leaf w0 _ _ (C07R.route_CMP_B_RR w0 0 0 0 0 hp) rfl
+
+theorem CMP_B_RR_exec (w0 : BitVec 16) (st st' : Cpu) (c : BitVec 8) (i : Instr)
+    (hp : Form.pat .CMP_B_RR w0 0 0 0 0 = true) (hi : instrOf .CMP_B_RR w0 0 0 0 0 = some i)
+    (h : exec w0 st = .ok c st') :
+    st' = { st with regs := (specRegCcr i st).1, ccr := (specRegCcr i st).2 } := by
+  rw [exec_eq_CMP_B_RR w0 hp] at h
+  exact C02.CMP_B_RR w0 st st' c i hi h
+
+theorem exec_eq_CMP_W_RR (w0 : BitVec 16) (hp : Form.pat .CMP_W_RR w0 0 0 0 0 = true) : exec w0 = cmpWRn w0 := by
+  exact exec_of_leaf w0 _ _ (C07R.route_CMP_W_RR w0 0 0 0 0 hp) rfl
+
+theorem CMP_W_RR_exec (w0 : BitVec 16) (st st' : Cpu) (c : BitVec 8) (i : Instr)
+    (hp : Form.pat .CMP_W_RR w0 0 0 0 0 = true) (hi : instrOf .CMP_W_RR w0 0 0 0 0 = some i)
+    (h : exec w0 st = .ok c st') :
+    st' = { st with regs := (specRegCcr i st).1, ccr := (specRegCcr i st).2 } := by
+  rw [exec_eq_CMP_W_RR w0 hp] at h
+  exact C02.CMP_W_RR w0 st st' c i hi h
+
+theorem exec_eq_ADDX_RR (w0 : BitVec 16) (hp : Form.pat .ADDX_RR w0 0 0 0 0 = true) : exec w0 = addxRn w0 := by
+  exact exec_of_leaf w0 _ _ (C07R.route_ADDX_RR w0 0 0 0 0 hp) rfl
+
+theorem ADDX_RR_exec (w0 : BitVec 16) (st st' : Cpu) (c : BitVec 8) (i : Instr)
+    (hp : Form.pat .ADDX_RR w0 0 0 0 0 = true) (hi : instrOf .ADDX_RR w0 0 0 0 0 = some i)
+    (h : exec w0 st = .ok c st') :
+    st' = { st with regs := (specRegCcr i st).1, ccr := (specRegCcr i st).2 } := by
+  rw [exec_eq_ADDX_RR w0 hp] at h
+  exact C02.ADDX_RR w0 st st' c i hi h
+
+theorem exec_eq_ADD_L_RR (w0 : BitVec 16) (hp : Form.pat .ADD_L_RR w0 0 0 0 0 = true) : exec w0 = addLRn w0 := by
+  obtain ⟨h1, h2⟩ := C07R.route_ADD_L_RR w0 0 0 0 0 hp
+  exact exec_of_add_l w0 _ _ h1 h2 rfl
+
+theorem ADD_L_RR_exec (w0 : BitVec 16) (st st' : Cpu) (c : BitVec 8) (i : Instr)
+    (hp : Form.pat .ADD_L_RR w0 0 0 0 0 = true) (hi : instrOf .ADD_L_RR w0 0 0 0 0 = some i)
+    (h : exec w0 st = .ok c st') :
+    st' = { st with regs := (specRegCcr i st).1, ccr := (specRegCcr i st).2 } := by
+  rw [exec_eq_ADD_L_RR w0 hp] at h
+  exact C02.ADD_L_RR w0 st st' c i hp hi h
+
+theorem exec_eq_SUB_L_RR (w0 : BitVec 16) (hp : Form.pat .SUB_L_RR w0 0 0 0 0 = true) : exec w0 = subLRn w0 := by
+  obtain ⟨h1, h2⟩ := C07R.route_SUB_L_RR w0 0 0 0 0 hp
+  exact exec_of_sub_l w0 _ _ h1 h2 rfl
+
+theorem SUB_L_RR_exec (w0 : BitVec 16) (st st' : Cpu) (c : BitVec 8) (i : Instr)
+    (hp : Form.pat .SUB_L_RR w0 0 0 0 0 = true) (hi : instrOf .SUB_L_RR w0 0 0 0 0 = some i)
+    (h : exec w0 st = .ok c st') :
+    st' = { st with regs := (specRegCcr i st).1, ccr := (specRegCcr i st).2 } := by
+  rw [exec_eq_SUB_L_RR w0 hp] at h
+  exact C02.SUB_L_RR w0 st st' c i hp hi h
+
+theorem exec_eq_CMP_L_RR (w0 : BitVec 16) (hp : Form.pat .CMP_L_RR w0 0 0 0 0 = true) : exec w0 = cmpLRn w0 := by
+  exact exec_of_leaf w0 _ _ (C07R.route_CMP_L_RR w0 0 0 0 0 hp) rfl
+
+theorem CMP_L_RR_exec (w0 : BitVec 16) (st st' : Cpu) (c : BitVec 8) (i : Instr)
+    (hp : Form.pat .CMP_L_RR w0 0 0 0 0 = true) (hi : instrOf .CMP_L_RR w0 0 0 0 0 = some i)
+    (h : exec w0 st = .ok c st') :
+    st' = { st with regs := (specRegCcr i st).1, ccr := (specRegCcr i st).2 } := by
+  rw [exec_eq_CMP_L_RR w0 hp] at h
+  exact C02.CMP_L_RR w0 st st' c i hp hi h
+
+theorem exec_eq_ADD_B_IMM (w0 : BitVec 16) (hp : Form.pat .ADD_B_IMM w0 0 0 0 0 = true) : exec w0 = addBImm w0 := by
+  obtain ⟨h1, h2⟩ := C07R.route_ADD_B_IMM w0 0 0 0 0 hp
+  exact exec_of_add_b w0 _ _ h1 h2 rfl
+
+theorem ADD_B_IMM_exec (w0 : BitVec 16) (st st' : Cpu) (c : BitVec 8) (i : Instr)
+    (hp : Form.pat .ADD_B_IMM w0 0 0 0 0 = true) (hi : instrOf .ADD_B_IMM w0 0 0 0 0 = some i)
+    (h : exec w0 st = .ok c st') :
+    st' = { st with regs := (specRegCcr i st).1, ccr := (specRegCcr i st).2 } := by
+  rw [exec_eq_ADD_B_IMM w0 hp] at h
+  exact C02.ADD_B_IMM w0 st st' c i hi h
+
+theorem exec_eq_CMP_B_IMM (w0 : BitVec 16) (hp : Form.pat .CMP_B_IMM w0 0 0 0 0 = true) : exec w0 = cmpBImm w0 := by
+  exact exec_of_leaf w0 _ _ (C07R.route_CMP_B_IMM w0 0 0 0 0 hp) rfl
+
+theorem CMP_B_IMM_exec (w0 : BitVec 16) (st st' : Cpu) (c : BitVec 8) (i : Instr)
+    (hp : Form.pat .CMP_B_IMM w0 0 0 0 0 = true) (hi : instrOf .CMP_B_IMM w0 0 0 0 0 = some i)
+    (h : exec w0 st = .ok c st') :
+    st' = { st with regs := (specRegCcr i st).1, ccr := (specRegCcr i st).2 } := by
+  rw [exec_eq_CMP_B_IMM w0 hp] at h
+  exact C02.CMP_B_IMM w0 st st' c i hi h
+
+theorem exec_eq_ADDX_IMM (w0 : BitVec 16) (hp : Form.pat .ADDX_IMM w0 0 0 0 0 = true) : exec w0 = addxImm w0 := by
+  exact exec_of_leaf w0 _ _ (C07R.route_ADDX_IMM w0 0 0 0 0 hp) rfl
+
+theorem ADDX_IMM_exec (w0 : BitVec 16) (st st' : Cpu) (c : BitVec 8) (i : Instr)
+    (hp : Form.pat .ADDX_IMM w0 0 0 0 0 = true) (hi : instrOf .ADDX_IMM w0 0 0 0 0 = some i)
+    (h : exec w0 st = .ok c st') :
+    st' = { st with regs := (specRegCcr i st).1, ccr := (specRegCcr i st).2 } := by
+  rw [exec_eq_ADDX_IMM w0 hp] at h
+  exact C02.ADDX_IMM w0 st st' c i hi h
+
+theorem exec_eq_ADDS_1 (w0 : BitVec 16) (hp : Form.pat .ADDS_1 w0 0 0 0 0 = true) : exec w0 = addsSubs 1 w0 := by
+  exact exec_of_leaf w0 _ _ (C07R.route_ADDS_1 w0 0 0 0 0 hp) rfl
+
+theorem ADDS_1_exec (w0 : BitVec 16) (st st' : Cpu) (c : BitVec 8) (i : Instr)
+    (hp : Form.pat .ADDS_1 w0 0 0 0 0 = true) (hi : instrOf .ADDS_1 w0 0 0 0 0 = some i)
+    (h : exec w0 st = .ok c st') :
+    st' = { st with regs := (specRegCcr i st).1, ccr := (specRegCcr i st).2 } := by
+  rw [exec_eq_ADDS_1 w0 hp] at h
+  exact C02.ADDS_1 w0 st st' c i hp hi h
+
+theorem exec_eq_ADDS_2 (w0 : BitVec 16) (hp : Form.pat .ADDS_2 w0 0 0 0 0 = true) : exec w0 = addsSubs 2 w0 := by
+  exact exec_of_leaf w0 _ _ (C07R.route_ADDS_2 w0 0 0 0 0 hp) rfl
+
+theorem ADDS_2_exec (w0 : BitVec 16) (st st' : Cpu) (c : BitVec 8) (i : Instr)
+    (hp : Form.pat .ADDS_2 w0 0 0 0 0 = true) (hi : instrOf .ADDS_2 w0 0 0 0 0 = some i)
+    (h : exec w0 st = .ok c st') :
+    st' = { st with regs := (specRegCcr i st).1, ccr := (specRegCcr i st).2 } := by
+  rw [exec_eq_ADDS_2 w0 hp] at h
+  exact C02.ADDS_2 w0 st st' c i hp hi h
+
+theorem exec_eq_ADDS_4 (w0 : BitVec 16) (hp : Form.pat .ADDS_4 w0 0 0 0 0 = true) : exec w0 = addsSubs 4 w0 := by
+  exact exec_of_leaf w0 _ _ (C07R.route_ADDS_4 w0 0 0 0 0 hp) rfl
+
+theorem ADDS_4_exec (w0 : BitVec 16) (st st' : Cpu) (c : BitVec 8) (i : Instr)
+    (hp : Form.pat .ADDS_4 w0 0 0 0 0 = true) (hi : instrOf .ADDS_4 w0 0 0 0 0 = some i)
+    (h : exec w0 st = .ok c st') :
+    st' = { st with regs := (specRegCcr i st).1, ccr := (specRegCcr i st).2 } := by
+  rw [exec_eq_ADDS_4 w0 hp] at h
+  exact C02.ADDS_4 w0 st st' c i hp hi h
+
+theorem exec_eq_SUBS_1 (w0 : BitVec 16) (hp : Form.pat .SUBS_1 w0 0 0 0 0 = true) : exec w0 = addsSubs 0xffffffff w0 := by
+  exact exec_of_leaf w0 _ _ (C07R.route_SUBS_1 w0 0 0 0 0 hp) rfl
+
+theorem SUBS_1_exec (w0 : BitVec 16) (st st' : Cpu) (c : BitVec 8) (i : Instr)
+    (hp : Form.pat .SUBS_1 w0 0 0 0 0 = true) (hi : instrOf .SUBS_1 w0 0 0 0 0 = some i)
+    (h : exec w0 st = .ok c st') :
+    st' = { st with regs := (specRegCcr i st).1, ccr := (specRegCcr i st).2 } := by
+  rw [exec_eq_SUBS_1 w0 hp] at h
+  exact C02.SUBS_1 w0 st st' c i hp hi h
+
+theorem exec_eq_SUBS_2 (w0 : BitVec 16) (hp : Form.pat .SUBS_2 w0 0 0 0 0 = true) : exec w0 = addsSubs 0xfffffffe w0 := by
+  exact exec_of_leaf w0 _ _ (C07R.route_SUBS_2 w0 0 0 0 0 hp) rfl
+
+theorem SUBS_2_exec (w0 : BitVec 16) (st st' : Cpu) (c : BitVec 8) (i : Instr)
+    (hp : Form.pat .SUBS_2 w0 0 0 0 0 = true) (hi : instrOf .SUBS_2 w0 0 0 0 0 = some i)
+    (h : exec w0 st = .ok c st') :
+    st' = { st with regs := (specRegCcr i st).1, ccr := (specRegCcr i st).2 } := by
+  rw [exec_eq_SUBS_2 w0 hp] at h
+  exact C02.SUBS_2 w0 st st' c i hp hi h
+
+theorem exec_eq_SUBS_4 (w0 : BitVec 16) (hp : Form.pat .SUBS_4 w0 0 0 0 0 = true) : exec w0 = addsSubs 0xfffffffc w0 := by
+  exact exec_of_leaf w0 _ _ (C07R.route_SUBS_4 w0 0 0 0 0 hp) rfl
+
+theorem SUBS_4_exec (w0 : BitVec 16) (st st' : Cpu) (c : BitVec 8) (i : Instr)
+    (hp : Form.pat .SUBS_4 w0 0 0 0 0 = true) (hi : instrOf .SUBS_4 w0 0 0 0 0 = some i)
+    (h : exec w0 st = .ok c st') :
+    st' = { st with regs := (specRegCcr i st).1, ccr := (specRegCcr i st).2 } := by
+  rw [exec_eq_SUBS_4 w0 hp] at h
+  exact C02.SUBS_4 w0 st st' c i hp hi h
+
+theorem exec_eq_INC_B (w0 : BitVec 16) (hp : Form.pat .INC_B w0 0 0 0 0 = true) : exec w0 = inc .B 1 w0 := by
+  exact exec_of_leaf w0 _ _ (C07R.route_INC_B w0 0 0 0 0 hp) rfl
+
+theorem INC_B_exec (w0 : BitVec 16) (st st' : Cpu) (c : BitVec 8) (i : Instr)
+    (hp : Form.pat .INC_B w0 0 0 0 0 = true) (hi : instrOf .INC_B w0 0 0 0 0 = some i)
+    (h : exec w0 st = .ok c st') :
+    st' = { st with regs := (specRegCcr i st).1, ccr := (specRegCcr i st).2 } := by
+  rw [exec_eq_INC_B w0 hp] at h
+  exact C02.INC_B w0 st st' c i hp hi h
+
+theorem exec_eq_INC_W_1 (w0 : BitVec 16) (hp : Form.pat .INC_W_1 w0 0 0 0 0 = true) : exec w0 = inc .W 1 w0 := by
+  exact exec_of_leaf w0 _ _ (C07R.route_INC_W_1 w0 0 0 0 0 hp) rfl
+
+theorem INC_W_1_exec (w0 : BitVec 16) (st st' : Cpu) (c : BitVec 8) (i : Instr)
+    (hp : Form.pat .INC_W_1 w0 0 0 0 0 = true) (hi : instrOf .INC_W_1 w0 0 0 0 0 = some i)
+    (h : exec w0 st = .ok c st') :
+    st' = { st with regs := (specRegCcr i st).1, ccr := (specRegCcr i st).2 } := by
+  rw [exec_eq_INC_W_1 w0 hp] at h
+  exact C02.INC_W_1 w0 st st' c i hp hi h
+
+theorem exec_eq_INC_W_2 (w0 : BitVec 16) (hp : Form.pat .INC_W_2 w0 0 0 0 0 = true) : exec w0 = inc .W 2 w0 := by
+  exact exec_of_leaf w0 _ _ (C07R.route_INC_W_2 w0 0 0 0 0 hp) rfl
+
+theorem INC_W_2_exec (w0 : BitVec 16) (st st' : Cpu) (c : BitVec 8) (i : Instr)
+    (hp : Form.pat .INC_W_2 w0 0 0 0 0 = true) (hi : instrOf .INC_W_2 w0 0 0 0 0 = some i)
+    (h : exec w0 st = .ok c st') :
+    st' = { st with regs := (specRegCcr i st).1, ccr := (specRegCcr i st).2 } := by
+  rw [exec_eq_INC_W_2 w0 hp] at h
+  exact C02.INC_W_2 w0 st st' c i hp hi h
+
+theorem exec_eq_INC_L_1 (w0 : BitVec 16) (hp : Form.pat .INC_L_1 w0 0 0 0 0 = true) : exec w0 = inc .L 1 w0 := by
+  exact exec_of_leaf w0 _ _ (C07R.route_INC_L_1 w0 0 0 0 0 hp) rfl
+
+theorem INC_L_1_exec (w0 : BitVec 16) (st st' : Cpu) (c : BitVec 8) (i : Instr)
+    (hp : Form.pat .INC_L_1 w0 0 0 0 0 = true) (hi : instrOf .INC_L_1 w0 0 0 0 0 = some i)
+    (h : exec w0 st = .ok c st') :
+    st' = { st with regs := (specRegCcr i st).1, ccr := (specRegCcr i st).2 } := by
+  rw [exec_eq_INC_L_1 w0 hp] at h
+  exact C02.INC_L_1 w0 st st' c i hp hi h
+
+theorem exec_eq_INC_L_2 (w0 : BitVec 16) (hp : Form.pat .INC_L_2 w0 0 0 0 0 = true) : exec w0 = inc .L 2 w0 := by
+  exact exec_of_leaf w0 _ _ (C07R.route_INC_L_2 w0 0 0 0 0 hp) rfl
+
+theorem INC_L_2_exec (w0 : BitVec 16) (st st' : Cpu) (c : BitVec 8) (i : Instr)
+    (hp : Form.pat .INC_L_2 w0 0 0 0 0 = true) (hi : instrOf .INC_L_2 w0 0 0 0 0 = some i)
+    (h : exec w0 st = .ok c st') :
+    st' = { st with regs := (specRegCcr i st).1, ccr := (specRegCcr i st).2 } := by
+  rw [exec_eq_INC_L_2 w0 hp] at h
+  exact C02.INC_L_2 w0 st st' c i hp hi h
+
+theorem exec_eq_DEC_B (w0 : BitVec 16) (hp : Form.pat .DEC_B w0 0 0 0 0 = true) : exec w0 = dec .B 1 w0 := by
+  exact exec_of_leaf w0 _ _ (C07R.route_DEC_B w0 0 0 0 0 hp) rfl
+
+theorem DEC_B_exec (w0 : BitVec 16) (st st' : Cpu) (c : BitVec 8) (i : Instr)
+    (hp : Form.pat .DEC_B w0 0 0 0 0 = true) (hi : instrOf .DEC_B w0 0 0 0 0 = some i)
+    (h : exec w0 st = .ok c st') :
+    st' = { st with regs := (specRegCcr i st).1, ccr := (specRegCcr i st).2 } := by
+  rw [exec_eq_DEC_B w0 hp] at h
+  exact C02.DEC_B w0 st st' c i hp hi h
+
+theorem exec_eq_DEC_W_1 (w0 : BitVec 16) (hp : Form.pat .DEC_W_1 w0 0 0 0 0 = true) : exec w0 = dec .W 1 w0 := by
+  exact exec_of_leaf w0 _ _ (C07R.route_DEC_W_1 w0 0 0 0 0 hp) rfl
+
+theorem DEC_W_1_exec (w0 : BitVec 16) (st st' : Cpu) (c : BitVec 8) (i : Instr)
+    (hp : Form.pat .DEC_W_1 w0 0 0 0 0 = true) (hi : instrOf .DEC_W_1 w0 0 0 0 0 = some i)
+    (h : exec w0 st = .ok c st') :
+    st' = { st with regs := (specRegCcr i st).1, ccr := (specRegCcr i st).2 } := by
+  rw [exec_eq_DEC_W_1 w0 hp] at h
+  exact C02.DEC_W_1 w0 st st' c i hp hi h
+
+theorem exec_eq_DEC_W_2 (w0 : BitVec 16) (hp : Form.pat .DEC_W_2 w0 0 0 0 0 = true) : exec w0 = dec .W 2 w0 := by
+  exact exec_of_leaf w0 _ _ (C07R.route_DEC_W_2 w0 0 0 0 0 hp) rfl
+
+theorem DEC_W_2_exec (w0 : BitVec 16) (st st' : Cpu) (c : BitVec 8) (i : Instr)
+    (hp : Form.pat .DEC_W_2 w0 0 0 0 0 = true) (hi : instrOf .DEC_W_2 w0 0 0 0 0 = some i)
+    (h : exec w0 st = .ok c st') :
+    st' = { st with regs := (specRegCcr i st).1, ccr := (specRegCcr i st).2 } := by
+  rw [exec_eq_DEC_W_2 w0 hp] at h
+  exact C02.DEC_W_2 w0 st st' c i hp hi h
+
+theorem exec_eq_DEC_L_1 (w0 : BitVec 16) (hp : Form.pat .DEC_L_1 w0 0 0 0 0 = true) : exec w0 = dec .L 1 w0 := by
+  exact exec_of_leaf w0 _ _ (C07R.route_DEC_L_1 w0 0 0 0 0 hp) rfl
+
+theorem DEC_L_1_exec (w0 : BitVec 16) (st st' : Cpu) (c : BitVec 8) (i : Instr)
+    (hp : Form.pat .DEC_L_1 w0 0 0 0 0 = true) (hi : instrOf .DEC_L_1 w0 0 0 0 0 = some i)
+    (h : exec w0 st = .ok c st') :
+    st' = { st with regs := (specRegCcr i st).1, ccr := (specRegCcr i st).2 } := by
+  rw [exec_eq_DEC_L_1 w0 hp] at h
+  exact C02.DEC_L_1 w0 st st' c i hp hi h
+
+theorem exec_eq_DEC_L_2 (w0 : BitVec 16) (hp : Form.pat .DEC_L_2 w0 0 0 0 0 = true) : exec w0 = dec .L 2 w0 := by
+  exact exec_of_leaf w0 _ _ (C07R.route_DEC_L_2 w0 0 0 0 0 hp) rfl
+
+theorem DEC_L_2_exec (w0 : BitVec 16) (st st' : Cpu) (c : BitVec 8) (i : Instr)
+    (hp : Form.pat .DEC_L_2 w0 0 0 0 0 = true) (hi : instrOf .DEC_L_2 w0 0 0 0 0 = some i)
+    (h : exec w0 st = .ok c st') :
+    st' = { st with regs := (specRegCcr i st).1, ccr := (specRegCcr i st).2 } := by
+  rw [exec_eq_DEC_L_2 w0 hp] at h
+  exact C02.DEC_L_2 w0 st st' c i hp hi h
+
+theorem exec_eq_NEG_B (w0 : BitVec 16) (hp : Form.pat .NEG_B w0 0 0 0 0 = true) : exec w0 = unary .B negProc w0 := by
+  exact exec_of_leaf w0 _ _ (C07R.route_NEG_B w0 0 0 0 0 hp) rfl
+
+theorem NEG_B_exec (w0 : BitVec 16) (st st' : Cpu) (c : BitVec 8) (i : Instr)
+    (hp : Form.pat .NEG_B w0 0 0 0 0 = true) (hi : instrOf .NEG_B w0 0 0 0 0 = some i)
+    (h : exec w0 st = .ok c st') :
+    st' = { st with regs := (specRegCcr i st).1, ccr := (specRegCcr i st).2 } := by
+  rw [exec_eq_NEG_B w0 hp] at h
+  exact C02.NEG_B w0 st st' c i hp hi h
+
+theorem exec_eq_NEG_W (w0 : BitVec 16) (hp : Form.pat .NEG_W w0 0 0 0 0 = true) : exec w0 = unary .W negProc w0 := by
+  exact exec_of_leaf w0 _ _ (C07R.route_NEG_W w0 0 0 0 0 hp) rfl
+
+theorem NEG_W_exec (w0 : BitVec 16) (st st' : Cpu) (c : BitVec 8) (i : Instr)
+    (hp : Form.pat .NEG_W w0 0 0 0 0 = true) (hi : instrOf .NEG_W w0 0 0 0 0 = some i)
+    (h : exec w0 st = .ok c st') :
+    st' = { st with regs := (specRegCcr i st).1, ccr := (specRegCcr i st).2 } := by
+  rw [exec_eq_NEG_W w0 hp] at h
+  exact C02.NEG_W w0 st st' c i hp hi h
+
+theorem exec_eq_NEG_L (w0 : BitVec 16) (hp : Form.pat .NEG_L w0 0 0 0 0 = true) : exec w0 = unary .L negProc w0 := by
+  exact exec_of_leaf w0 _ _ (C07R.route_NEG_L w0 0 0 0 0 hp) rfl
+
+theorem NEG_L_exec (w0 : BitVec 16) (st st' : Cpu) (c : BitVec 8) (i : Instr)
+    (hp : Form.pat .NEG_L w0 0 0 0 0 = true) (hi : instrOf .NEG_L w0 0 0 0 0 = some i)
+    (h : exec w0 st = .ok c st') :
+    st' = { st with regs := (specRegCcr i st).1, ccr := (specRegCcr i st).2 } := by
+  rw [exec_eq_NEG_L w0 hp] at h
+  exact C02.NEG_L w0 st st' c i hp hi h
+
+theorem exec_eq_EXTU_W (w0 : BitVec 16) (hp : Form.pat .EXTU_W w0 0 0 0 0 = true) : exec w0 = extu .W w0 := by
+  exact exec_of_leaf w0 _ _ (C07R.route_EXTU_W w0 0 0 0 0 hp) rfl
+
+theorem EXTU_W_exec (w0 : BitVec 16) (st st' : Cpu) (c : BitVec 8) (i : Instr)
+    (hp : Form.pat .EXTU_W w0 0 0 0 0 = true) (hi : instrOf .EXTU_W w0 0 0 0 0 = some i)
+    (h : exec w0 st = .ok c st') :
+    st' = { st with regs := (specRegCcr i st).1, ccr := (specRegCcr i st).2 } := by
+  rw [exec_eq_EXTU_W w0 hp] at h
+  exact C02.EXTU_W w0 st st' c i hp hi h
+
+theorem exec_eq_EXTU_L (w0 : BitVec 16) (hp : Form.pat .EXTU_L w0 0 0 0 0 = true) : exec w0 = extu .L w0 := by
+  exact exec_of_leaf w0 _ _ (C07R.route_EXTU_L w0 0 0 0 0 hp) rfl
+
+theorem EXTU_L_exec (w0 : BitVec 16) (st st' : Cpu) (c : BitVec 8) (i : Instr)
+    (hp : Form.pat .EXTU_L w0 0 0 0 0 = true) (hi : instrOf .EXTU_L w0 0 0 0 0 = some i)
+    (h : exec w0 st = .ok c st') :
+    st' = { st with regs := (specRegCcr i st).1, ccr := (specRegCcr i st).2 } := by
+  rw [exec_eq_EXTU_L w0 hp] at h
+  exact C02.EXTU_L w0 st st' c i hp hi h
+
+theorem exec_eq_SHLL_B (w0 : BitVec 16) (hp : Form.pat .SHLL_B w0 0 0 0 0 = true) : exec w0 = shift .shll .B w0 := by
+  exact exec_of_leaf w0 _ _ (C07R.route_SHLL_B w0 0 0 0 0 hp) rfl
 
 theorem SHLL_B_exec (w0 : BitVec 16) (st st' : Cpu) (c : BitVec 8) (i : Instr)
     (hp : Form.pat .SHLL_B w0 0 0 0 0 = true) (hi : instrOf .SHLL_B w0 0 0 0 0 = some i)
@@ -76,6 +512,209 @@ theorem SHLL_B_exec (w0 : BitVec 16) (st st' : Cpu) (c : BitVec 8) (i : Instr)
   rw [exec_eq_SHLL_B w0 hp] at h
   exact C03.SHLL_B w0 st st' c i hi hp h
 
+theorem exec_eq_SHLL_W (w0 : BitVec 16) (hp : Form.pat .SHLL_W w0 0 0 0 0 = true) : exec w0 = shift .shll .W w0 := by
+  exact exec_of_leaf w0 _ _ (C07R.route_SHLL_W w0 0 0 0 0 hp) rfl
+
+theorem SHLL_W_exec (w0 : BitVec 16) (st st' : Cpu) (c : BitVec 8) (i : Instr)
+    (hp : Form.pat .SHLL_W w0 0 0 0 0 = true) (hi : instrOf .SHLL_W w0 0 0 0 0 = some i)
+    (h : exec w0 st = .ok c st') :
+    st' = { st with regs := (specRegCcr i st).1, ccr := (specRegCcr i st).2 } := by
+  rw [exec_eq_SHLL_W w0 hp] at h
+  exact C03.SHLL_W w0 st st' c i hi hp h
+
+theorem exec_eq_SHLL_L (w0 : BitVec 16) (hp : Form.pat .SHLL_L w0 0 0 0 0 = true) : exec w0 = shift .shll .L w0 := by
+  exact exec_of_leaf w0 _ _ (C07R.route_SHLL_L w0 0 0 0 0 hp) rfl
+
+theorem SHLL_L_exec (w0 : BitVec 16) (st st' : Cpu) (c : BitVec 8) (i : Instr)
+    (hp : Form.pat .SHLL_L w0 0 0 0 0 = true) (hi : instrOf .SHLL_L w0 0 0 0 0 = some i)
+    (h : exec w0 st = .ok c st') :
+    st' = { st with regs := (specRegCcr i st).1, ccr := (specRegCcr i st).2 } := by
+  rw [exec_eq_SHLL_L w0 hp] at h
+  exact C03.SHLL_L w0 st st' c i hi hp h
+
+theorem exec_eq_SHLR_B (w0 : BitVec 16) (hp : Form.pat .SHLR_B w0 0 0 0 0 = true) : exec w0 = shift .shlr .B w0 := by
+  exact exec_of_leaf w0 _ _ (C07R.route_SHLR_B w0 0 0 0 0 hp) rfl
+
+theorem SHLR_B_exec (w0 : BitVec 16) (st st' : Cpu) (c : BitVec 8) (i : Instr)
+    (hp : Form.pat .SHLR_B w0 0 0 0 0 = true) (hi : instrOf .SHLR_B w0 0 0 0 0 = some i)
+    (h : exec w0 st = .ok c st') :
+    st' = { st with regs := (specRegCcr i st).1, ccr := (specRegCcr i st).2 } := by
+  rw [exec_eq_SHLR_B w0 hp] at h
+  exact C03.SHLR_B w0 st st' c i hi hp h
+
+theorem exec_eq_SHLR_W (w0 : BitVec 16) (hp : Form.pat .SHLR_W w0 0 0 0 0 = true) : exec w0 = shift .shlr .W w0 := by
+  exact exec_of_leaf w0 _ _ (C07R.route_SHLR_W w0 0 0 0 0 hp) rfl
+
+theorem SHLR_W_exec (w0 : BitVec 16) (st st' : Cpu) (c : BitVec 8) (i : Instr)
+    (hp : Form.pat .SHLR_W w0 0 0 0 0 = true) (hi : instrOf .SHLR_W w0 0 0 0 0 = some i)
+    (h : exec w0 st = .ok c st') :
+    st' = { st with regs := (specRegCcr i st).1, ccr := (specRegCcr i st).2 } := by
+  rw [exec_eq_SHLR_W w0 hp] at h
+  exact C03.SHLR_W w0 st st' c i hi hp h
+
+theorem exec_eq_SHLR_L (w0 : BitVec 16) (hp : Form.pat .SHLR_L w0 0 0 0 0 = true) : exec w0 = shift .shlr .L w0 := by
+  exact exec_of_leaf w0 _ _ (C07R.route_SHLR_L w0 0 0 0 0 hp) rfl
+
+theorem SHLR_L_exec (w0 : BitVec 16) (st st' : Cpu) (c : BitVec 8) (i : Instr)
+    (hp : Form.pat .SHLR_L w0 0 0 0 0 = true) (hi : instrOf .SHLR_L w0 0 0 0 0 = some i)
+    (h : exec w0 st = .ok c st') :
+    st' = { st with regs := (specRegCcr i st).1, ccr := (specRegCcr i st).2 } := by
+  rw [exec_eq_SHLR_L w0 hp] at h
+  exact C03.SHLR_L w0 st st' c i hi hp h
+
+theorem exec_eq_SHAR_B (w0 : BitVec 16) (hp : Form.pat .SHAR_B w0 0 0 0 0 = true) : exec w0 = shift .shar .B w0 := by
+  exact exec_of_leaf w0 _ _ (C07R.route_SHAR_B w0 0 0 0 0 hp) rfl
+
+theorem SHAR_B_exec (w0 : BitVec 16) (st st' : Cpu) (c : BitVec 8) (i : Instr)
+    (hp : Form.pat .SHAR_B w0 0 0 0 0 = true) (hi : instrOf .SHAR_B w0 0 0 0 0 = some i)
+    (h : exec w0 st = .ok c st') :
+    st' = { st with regs := (specRegCcr i st).1, ccr := (specRegCcr i st).2 } := by
+  rw [exec_eq_SHAR_B w0 hp] at h
+  exact C03.SHAR_B w0 st st' c i hi hp h
+
+theorem exec_eq_SHAR_W (w0 : BitVec 16) (hp : Form.pat .SHAR_W w0 0 0 0 0 = true) : exec w0 = shift .shar .W w0 := by
+  exact exec_of_leaf w0 _ _ (C07R.route_SHAR_W w0 0 0 0 0 hp) rfl
+
+theorem SHAR_W_exec (w0 : BitVec 16) (st st' : Cpu) (c : BitVec 8) (i : Instr)
+    (hp : Form.pat .SHAR_W w0 0 0 0 0 = true) (hi : instrOf .SHAR_W w0 0 0 0 0 = some i)
+    (h : exec w0 st = .ok c st') :
+    st' = { st with regs := (specRegCcr i st).1, ccr := (specRegCcr i st).2 } := by
+  rw [exec_eq_SHAR_W w0 hp] at h
+  exact C03.SHAR_W w0 st st' c i hi hp h
+
+theorem exec_eq_SHAR_L (w0 : BitVec 16) (hp : Form.pat .SHAR_L w0 0 0 0 0 = true) : exec w0 = shift .shar .L w0 := by
+  exact exec_of_leaf w0 _ _ (C07R.route_SHAR_L w0 0 0 0 0 hp) rfl
+
+theorem SHAR_L_exec (w0 : BitVec 16) (st st' : Cpu) (c : BitVec 8) (i : Instr)
+    (hp : Form.pat .SHAR_L w0 0 0 0 0 = true) (hi : instrOf .SHAR_L w0 0 0 0 0 = some i)
+    (h : exec w0 st = .ok c st') :
+    st' = { st with regs := (specRegCcr i st).1, ccr := (specRegCcr i st).2 } := by
+  rw [exec_eq_SHAR_L w0 hp] at h
+  exact C03.SHAR_L w0 st st' c i hi hp h
+
+theorem exec_eq_ROTL_B (w0 : BitVec 16) (hp : Form.pat .ROTL_B w0 0 0 0 0 = true) : exec w0 = shift .rotl .B w0 := by
+  exact exec_of_leaf w0 _ _ (C07R.route_ROTL_B w0 0 0 0 0 hp) rfl
+
+theorem ROTL_B_exec (w0 : BitVec 16) (st st' : Cpu) (c : BitVec 8) (i : Instr)
+    (hp : Form.pat .ROTL_B w0 0 0 0 0 = true) (hi : instrOf .ROTL_B w0 0 0 0 0 = some i)
+    (h : exec w0 st = .ok c st') :
+    st' = { st with regs := (specRegCcr i st).1, ccr := (specRegCcr i st).2 } := by
+  rw [exec_eq_ROTL_B w0 hp] at h
+  exact C03.ROTL_B w0 st st' c i hi hp h
+
+theorem exec_eq_ROTL_W (w0 : BitVec 16) (hp : Form.pat .ROTL_W w0 0 0 0 0 = true) : exec w0 = shift .rotl .W w0 := by
+  exact exec_of_leaf w0 _ _ (C07R.route_ROTL_W w0 0 0 0 0 hp) rfl
+
+theorem ROTL_W_exec (w0 : BitVec 16) (st st' : Cpu) (c : BitVec 8) (i : Instr)
+    (hp : Form.pat .ROTL_W w0 0 0 0 0 = true) (hi : instrOf .ROTL_W w0 0 0 0 0 = some i)
+    (h : exec w0 st = .ok c st') :
+    st' = { st with regs := (specRegCcr i st).1, ccr := (specRegCcr i st).2 } := by
+  rw [exec_eq_ROTL_W w0 hp] at h
+  exact C03.ROTL_W w0 st st' c i hi hp h
+
+theorem exec_eq_ROTL_L (w0 : BitVec 16) (hp : Form.pat .ROTL_L w0 0 0 0 0 = true) : exec w0 = shift .rotl .L w0 := by
+  exact exec_of_leaf w0 _ _ (C07R.route_ROTL_L w0 0 0 0 0 hp) rfl
+
+theorem ROTL_L_exec (w0 : BitVec 16) (st st' : Cpu) (c : BitVec 8) (i : Instr)
+    (hp : Form.pat .ROTL_L w0 0 0 0 0 = true) (hi : instrOf .ROTL_L w0 0 0 0 0 = some i)
+    (h : exec w0 st = .ok c st') :
+    st' = { st with regs := (specRegCcr i st).1, ccr := (specRegCcr i st).2 } := by
+  rw [exec_eq_ROTL_L w0 hp] at h
+  exact C03.ROTL_L w0 st st' c i hi hp h
+
+theorem exec_eq_ROTR_B (w0 : BitVec 16) (hp : Form.pat .ROTR_B w0 0 0 0 0 = true) : exec w0 = shift .rotr .B w0 := by
+  exact exec_of_leaf w0 _ _ (C07R.route_ROTR_B w0 0 0 0 0 hp) rfl
+
+theorem ROTR_B_exec (w0 : BitVec 16) (st st' : Cpu) (c : BitVec 8) (i : Instr)
+    (hp : Form.pat .ROTR_B w0 0 0 0 0 = true) (hi : instrOf .ROTR_B w0 0 0 0 0 = some i)
+    (h : exec w0 st = .ok c st') :
+    st' = { st with regs := (specRegCcr i st).1, ccr := (specRegCcr i st).2 } := by
+  rw [exec_eq_ROTR_B w0 hp] at h
+  exact C03.ROTR_B w0 st st' c i hi hp h
+
+theorem exec_eq_ROTR_W (w0 : BitVec 16) (hp : Form.pat .ROTR_W w0 0 0 0 0 = true) : exec w0 = shift .rotr .W w0 := by
+  exact exec_of_leaf w0 _ _ (C07R.route_ROTR_W w0 0 0 0 0 hp) rfl
+
+theorem ROTR_W_exec (w0 : BitVec 16) (st st' : Cpu) (c : BitVec 8) (i : Instr)
+    (hp : Form.pat .ROTR_W w0 0 0 0 0 = true) (hi : instrOf .ROTR_W w0 0 0 0 0 = some i)
+    (h : exec w0 st = .ok c st') :
+    st' = { st with regs := (specRegCcr i st).1, ccr := (specRegCcr i st).2 } := by
+  rw [exec_eq_ROTR_W w0 hp] at h
+  exact C03.ROTR_W w0 st st' c i hi hp h
+
+theorem exec_eq_ROTR_L (w0 : BitVec 16) (hp : Form.pat .ROTR_L w0 0 0 0 0 = true) : exec w0 = shift .rotr .L w0 := by
+  exact exec_of_leaf w0 _ _ (C07R.route_ROTR_L w0 0 0 0 0 hp) rfl
+
+theorem ROTR_L_exec (w0 : BitVec 16) (st st' : Cpu) (c : BitVec 8) (i : Instr)
+    (hp : Form.pat .ROTR_L w0 0 0 0 0 = true) (hi : instrOf .ROTR_L w0 0 0 0 0 = some i)
+    (h : exec w0 st = .ok c st') :
+    st' = { st with regs := (specRegCcr i st).1, ccr := (specRegCcr i st).2 } := by
+  rw [exec_eq_ROTR_L w0 hp] at h
+  exact C03.ROTR_L w0 st st' c i hi hp h
+
+theorem exec_eq_ROTXL_B (w0 : BitVec 16) (hp : Form.pat .ROTXL_B w0 0 0 0 0 = true) : exec w0 = shift .rotxl .B w0 := by
+  exact exec_of_leaf w0 _ _ (C07R.route_ROTXL_B w0 0 0 0 0 hp) rfl
+
+theorem ROTXL_B_exec (w0 : BitVec 16) (st st' : Cpu) (c : BitVec 8) (i : Instr)
+    (hp : Form.pat .ROTXL_B w0 0 0 0 0 = true) (hi : instrOf .ROTXL_B w0 0 0 0 0 = some i)
+    (h : exec w0 st = .ok c st') :
+    st' = { st with regs := (specRegCcr i st).1, ccr := (specRegCcr i st).2 } := by
+  rw [exec_eq_ROTXL_B w0 hp] at h
+  exact C03.ROTXL_B w0 st st' c i hi hp h
+
+theorem exec_eq_ROTXL_W (w0 : BitVec 16) (hp : Form.pat .ROTXL_W w0 0 0 0 0 = true) : exec w0 = shift .rotxl .W w0 := by
+  exact exec_of_leaf w0 _ _ (C07R.route_ROTXL_W w0 0 0 0 0 hp) rfl
+
+theorem ROTXL_W_exec (w0 : BitVec 16) (st st' : Cpu) (c : BitVec 8) (i : Instr)
+    (hp : Form.pat .ROTXL_W w0 0 0 0 0 = true) (hi : instrOf .ROTXL_W w0 0 0 0 0 = some i)
+    (h : exec w0 st = .ok c st') :
+    st' = { st with regs := (specRegCcr i st).1, ccr := (specRegCcr i st).2 } := by
+  rw [exec_eq_ROTXL_W w0 hp] at h
+  exact C03.ROTXL_W w0 st st' c i hi hp h
+
+theorem exec_eq_ROTXL_L (w0 : BitVec 16) (hp : Form.pat .ROTXL_L w0 0 0 0 0 = true) : exec w0 = shift .rotxl .L w0 := by
+  exact exec_of_leaf w0 _ _ (C07R.route_ROTXL_L w0 0 0 0 0 hp) rfl
+
+theorem ROTXL_L_exec (w0 : BitVec 16) (st st' : Cpu) (c : BitVec 8) (i : Instr)
+    (hp : Form.pat .ROTXL_L w0 0 0 0 0 = true) (hi : instrOf .ROTXL_L w0 0 0 0 0 = some i)
+    (h : exec w0 st = .ok c st') :
+    st' = { st with regs := (specRegCcr i st).1, ccr := (specRegCcr i st).2 } := by
+  rw [exec_eq_ROTXL_L w0 hp] at h
+  exact C03.ROTXL_L w0 st st' c i hi hp h
+
+theorem exec_eq_ROTXR_B (w0 : BitVec 16) (hp : Form.pat .ROTXR_B w0 0 0 0 0 = true) : exec w0 = shift .rotxr .B w0 := by
+  exact exec_of_leaf w0 _ _ (C07R.route_ROTXR_B w0 0 0 0 0 hp) rfl
+
+theorem ROTXR_B_exec (w0 : BitVec 16) (st st' : Cpu) (c : BitVec 8) (i : Instr)
+    (hp : Form.pat .ROTXR_B w0 0 0 0 0 = true) (hi : instrOf .ROTXR_B w0 0 0 0 0 = some i)
+    (h : exec w0 st = .ok c st') :
+    st' = { st with regs := (specRegCcr i st).1, ccr := (specRegCcr i st).2 } := by
+  rw [exec_eq_ROTXR_B w0 hp] at h
+  exact C03.ROTXR_B w0 st st' c i hi hp h
+
+theorem exec_eq_ROTXR_W (w0 : BitVec 16) (hp : Form.pat .ROTXR_W w0 0 0 0 0 = true) : exec w0 = shift .rotxr .W w0 := by
+  exact exec_of_leaf w0 _ _ (C07R.route_ROTXR_W w0 0 0 0 0 hp) rfl
+
+theorem ROTXR_W_exec (w0 : BitVec 16) (st st' : Cpu) (c : BitVec 8) (i : Instr)
+    (hp : Form.pat .ROTXR_W w0 0 0 0 0 = true) (hi : instrOf .ROTXR_W w0 0 0 0 0 = some i)
+    (h : exec w0 st = .ok c st') :
+    st' = { st with regs := (specRegCcr i st).1, ccr := (specRegCcr i st).2 } := by
+  rw [exec_eq_ROTXR_W w0 hp] at h
+  exact C03.ROTXR_W w0 st st' c i hi hp h
+
+theorem exec_eq_ROTXR_L (w0 : BitVec 16) (hp : Form.pat .ROTXR_L w0 0 0 0 0 = true) : exec w0 = shift .rotxr .L w0 := by
+  exact exec_of_leaf w0 _ _ (C07R.route_ROTXR_L w0 0 0 0 0 hp) rfl
+
+theorem ROTXR_L_exec (w0 : BitVec 16) (st st' : Cpu) (c : BitVec 8) (i : Instr)
+    (hp : Form.pat .ROTXR_L w0 0 0 0 0 = true) (hi : instrOf .ROTXR_L w0 0 0 0 0 = some i)
+    (h : exec w0 st = .ok c st') :
+    st' = { st with regs := (specRegCcr i st).1, ccr := (specRegCcr i st).2 } := by
+  rw [exec_eq_ROTXR_L w0 hp] at h
+  exact C03.ROTXR_L w0 st st' c i hi hp h
+
+theorem exec_eq_NOT_B (w0 : BitVec 16) (hp : Form.pat .NOT_B w0 0 0 0 0 = true) : exec w0 = unary .B notProc w0 := by
+  exact exec_of_leaf w0 _ _ (C07R.route_NOT_B w0 0 0 0 0 hp) rfl
+
 theorem NOT_B_exec (w0 : BitVec 16) (st st' : Cpu) (c : BitVec 8) (i : Instr)
     (hp : Form.pat .NOT_B w0 0 0 0 0 = true) (hi : instrOf .NOT_B w0 0 0 0 0 = some i)
     (h : exec w0 st = .ok c st') :
@@ -83,11 +722,294 @@ theorem NOT_B_exec (w0 : BitVec 16) (st st' : Cpu) (c : BitVec 8) (i : Instr)
   rw [exec_eq_NOT_B w0 hp] at h
   exact C03.NOT_B w0 st st' c i hp hi h
 
-theorem INC_B_exec (w0 : BitVec 16) (st st' : Cpu) (c : BitVec 8) (i : Instr)
-    (hp : Form.pat .INC_B w0 0 0 0 0 = true) (hi : instrOf .INC_B w0 0 0 0 0 = some i)
+theorem exec_eq_NOT_W (w0 : BitVec 16) (hp : Form.pat .NOT_W w0 0 0 0 0 = true) : exec w0 = unary .W notProc w0 := by
+  exact exec_of_leaf w0 _ _ (C07R.route_NOT_W w0 0 0 0 0 hp) rfl
+
+theorem NOT_W_exec (w0 : BitVec 16) (st st' : Cpu) (c : BitVec 8) (i : Instr)
+    (hp : Form.pat .NOT_W w0 0 0 0 0 = true) (hi : instrOf .NOT_W w0 0 0 0 0 = some i)
     (h : exec w0 st = .ok c st') :
     st' = { st with regs := (specRegCcr i st).1, ccr := (specRegCcr i st).2 } := by
-  rw [exec_eq_INC_B w0 hp] at h
-  exact C02.INC_B w0 st st' c i hp hi h
+  rw [exec_eq_NOT_W w0 hp] at h
+  exact C03.NOT_W w0 st st' c i hp hi h
+
+theorem exec_eq_NOT_L (w0 : BitVec 16) (hp : Form.pat .NOT_L w0 0 0 0 0 = true) : exec w0 = unary .L notProc w0 := by
+  exact exec_of_leaf w0 _ _ (C07R.route_NOT_L w0 0 0 0 0 hp) rfl
+
+theorem NOT_L_exec (w0 : BitVec 16) (st st' : Cpu) (c : BitVec 8) (i : Instr)
+    (hp : Form.pat .NOT_L w0 0 0 0 0 = true) (hi : instrOf .NOT_L w0 0 0 0 0 = some i)
+    (h : exec w0 st = .ok c st') :
+    st' = { st with regs := (specRegCcr i st).1, ccr := (specRegCcr i st).2 } := by
+  rw [exec_eq_NOT_L w0 hp] at h
+  exact C03.NOT_L w0 st st' c i hp hi h
+
+theorem exec_eq_AND_B_RR (w0 : BitVec 16) (hp : Form.pat .AND_B_RR w0 0 0 0 0 = true) : exec w0 = logicRn .and .B w0 1 := by
+  exact exec_of_leaf w0 _ _ (C07R.route_AND_B_RR w0 0 0 0 0 hp) rfl
+
+theorem AND_B_RR_exec (w0 : BitVec 16) (st st' : Cpu) (c : BitVec 8) (i : Instr)
+    (hp : Form.pat .AND_B_RR w0 0 0 0 0 = true) (hi : instrOf .AND_B_RR w0 0 0 0 0 = some i)
+    (h : exec w0 st = .ok c st') :
+    st' = { st with regs := (specRegCcr i st).1, ccr := (specRegCcr i st).2 } := by
+  rw [exec_eq_AND_B_RR w0 hp] at h
+  exact C03.AND_B_RR w0 st st' c i hp hi h
+
+theorem exec_eq_AND_W_RR (w0 : BitVec 16) (hp : Form.pat .AND_W_RR w0 0 0 0 0 = true) : exec w0 = logicRn .and .W w0 1 := by
+  exact exec_of_leaf w0 _ _ (C07R.route_AND_W_RR w0 0 0 0 0 hp) rfl
+
+theorem AND_W_RR_exec (w0 : BitVec 16) (st st' : Cpu) (c : BitVec 8) (i : Instr)
+    (hp : Form.pat .AND_W_RR w0 0 0 0 0 = true) (hi : instrOf .AND_W_RR w0 0 0 0 0 = some i)
+    (h : exec w0 st = .ok c st') :
+    st' = { st with regs := (specRegCcr i st).1, ccr := (specRegCcr i st).2 } := by
+  rw [exec_eq_AND_W_RR w0 hp] at h
+  exact C03.AND_W_RR w0 st st' c i hp hi h
+
+theorem exec_eq_AND_B_IMM (w0 : BitVec 16) (hp : Form.pat .AND_B_IMM w0 0 0 0 0 = true) : exec w0 = logicBImm .and w0 := by
+  exact exec_of_leaf w0 _ _ (C07R.route_AND_B_IMM w0 0 0 0 0 hp) rfl
+
+theorem AND_B_IMM_exec (w0 : BitVec 16) (st st' : Cpu) (c : BitVec 8) (i : Instr)
+    (hp : Form.pat .AND_B_IMM w0 0 0 0 0 = true) (hi : instrOf .AND_B_IMM w0 0 0 0 0 = some i)
+    (h : exec w0 st = .ok c st') :
+    st' = { st with regs := (specRegCcr i st).1, ccr := (specRegCcr i st).2 } := by
+  rw [exec_eq_AND_B_IMM w0 hp] at h
+  exact C03.AND_B_IMM w0 st st' c i hp hi h
+
+theorem exec_eq_OR_B_RR (w0 : BitVec 16) (hp : Form.pat .OR_B_RR w0 0 0 0 0 = true) : exec w0 = logicRn .or .B w0 1 := by
+  exact exec_of_leaf w0 _ _ (C07R.route_OR_B_RR w0 0 0 0 0 hp) rfl
+
+theorem OR_B_RR_exec (w0 : BitVec 16) (st st' : Cpu) (c : BitVec 8) (i : Instr)
+    (hp : Form.pat .OR_B_RR w0 0 0 0 0 = true) (hi : instrOf .OR_B_RR w0 0 0 0 0 = some i)
+    (h : exec w0 st = .ok c st') :
+    st' = { st with regs := (specRegCcr i st).1, ccr := (specRegCcr i st).2 } := by
+  rw [exec_eq_OR_B_RR w0 hp] at h
+  exact C03.OR_B_RR w0 st st' c i hp hi h
+
+theorem exec_eq_OR_W_RR (w0 : BitVec 16) (hp : Form.pat .OR_W_RR w0 0 0 0 0 = true) : exec w0 = logicRn .or .W w0 1 := by
+  exact exec_of_leaf w0 _ _ (C07R.route_OR_W_RR w0 0 0 0 0 hp) rfl
+
+theorem OR_W_RR_exec (w0 : BitVec 16) (st st' : Cpu) (c : BitVec 8) (i : Instr)
+    (hp : Form.pat .OR_W_RR w0 0 0 0 0 = true) (hi : instrOf .OR_W_RR w0 0 0 0 0 = some i)
+    (h : exec w0 st = .ok c st') :
+    st' = { st with regs := (specRegCcr i st).1, ccr := (specRegCcr i st).2 } := by
+  rw [exec_eq_OR_W_RR w0 hp] at h
+  exact C03.OR_W_RR w0 st st' c i hp hi h
+
+theorem exec_eq_OR_B_IMM (w0 : BitVec 16) (hp : Form.pat .OR_B_IMM w0 0 0 0 0 = true) : exec w0 = logicBImm .or w0 := by
+  exact exec_of_leaf w0 _ _ (C07R.route_OR_B_IMM w0 0 0 0 0 hp) rfl
+
+theorem OR_B_IMM_exec (w0 : BitVec 16) (st st' : Cpu) (c : BitVec 8) (i : Instr)
+    (hp : Form.pat .OR_B_IMM w0 0 0 0 0 = true) (hi : instrOf .OR_B_IMM w0 0 0 0 0 = some i)
+    (h : exec w0 st = .ok c st') :
+    st' = { st with regs := (specRegCcr i st).1, ccr := (specRegCcr i st).2 } := by
+  rw [exec_eq_OR_B_IMM w0 hp] at h
+  exact C03.OR_B_IMM w0 st st' c i hp hi h
+
+theorem exec_eq_XOR_B_RR (w0 : BitVec 16) (hp : Form.pat .XOR_B_RR w0 0 0 0 0 = true) : exec w0 = logicRn .xor .B w0 1 := by
+  exact exec_of_leaf w0 _ _ (C07R.route_XOR_B_RR w0 0 0 0 0 hp) rfl
+
+theorem XOR_B_RR_exec (w0 : BitVec 16) (st st' : Cpu) (c : BitVec 8) (i : Instr)
+    (hp : Form.pat .XOR_B_RR w0 0 0 0 0 = true) (hi : instrOf .XOR_B_RR w0 0 0 0 0 = some i)
+    (h : exec w0 st = .ok c st') :
+    st' = { st with regs := (specRegCcr i st).1, ccr := (specRegCcr i st).2 } := by
+  rw [exec_eq_XOR_B_RR w0 hp] at h
+  exact C03.XOR_B_RR w0 st st' c i hp hi h
+
+theorem exec_eq_XOR_W_RR (w0 : BitVec 16) (hp : Form.pat .XOR_W_RR w0 0 0 0 0 = true) : exec w0 = logicRn .xor .W w0 1 := by
+  exact exec_of_leaf w0 _ _ (C07R.route_XOR_W_RR w0 0 0 0 0 hp) rfl
+
+theorem XOR_W_RR_exec (w0 : BitVec 16) (st st' : Cpu) (c : BitVec 8) (i : Instr)
+    (hp : Form.pat .XOR_W_RR w0 0 0 0 0 = true) (hi : instrOf .XOR_W_RR w0 0 0 0 0 = some i)
+    (h : exec w0 st = .ok c st') :
+    st' = { st with regs := (specRegCcr i st).1, ccr := (specRegCcr i st).2 } := by
+  rw [exec_eq_XOR_W_RR w0 hp] at h
+  exact C03.XOR_W_RR w0 st st' c i hp hi h
+
+theorem exec_eq_XOR_B_IMM (w0 : BitVec 16) (hp : Form.pat .XOR_B_IMM w0 0 0 0 0 = true) : exec w0 = logicBImm .xor w0 := by
+  exact exec_of_leaf w0 _ _ (C07R.route_XOR_B_IMM w0 0 0 0 0 hp) rfl
+
+theorem XOR_B_IMM_exec (w0 : BitVec 16) (st st' : Cpu) (c : BitVec 8) (i : Instr)
+    (hp : Form.pat .XOR_B_IMM w0 0 0 0 0 = true) (hi : instrOf .XOR_B_IMM w0 0 0 0 0 = some i)
+    (h : exec w0 st = .ok c st') :
+    st' = { st with regs := (specRegCcr i st).1, ccr := (specRegCcr i st).2 } := by
+  rw [exec_eq_XOR_B_IMM w0 hp] at h
+  exact C03.XOR_B_IMM w0 st st' c i hp hi h
+
+theorem exec_eq_BSET_RR (w0 : BitVec 16) (hp : Form.pat .BSET_RR w0 0 0 0 0 = true) : exec w0 = bmodRnRn .set w0 := by
+  exact exec_of_leaf w0 _ _ (C07R.route_BSET_RR w0 0 0 0 0 hp) rfl
+
+theorem BSET_RR_exec (w0 : BitVec 16) (st st' : Cpu) (c : BitVec 8) (i : Instr)
+    (hp : Form.pat .BSET_RR w0 0 0 0 0 = true) (hi : instrOf .BSET_RR w0 0 0 0 0 = some i)
+    (h : exec w0 st = .ok c st') :
+    st' = { st with regs := (specRegCcr i st).1, ccr := (specRegCcr i st).2 } := by
+  rw [exec_eq_BSET_RR w0 hp] at h
+  exact C04H.BSET_RR w0 st st' c i hp hi h
+
+theorem exec_eq_BNOT_RR (w0 : BitVec 16) (hp : Form.pat .BNOT_RR w0 0 0 0 0 = true) : exec w0 = bmodRnRn .not_ w0 := by
+  exact exec_of_leaf w0 _ _ (C07R.route_BNOT_RR w0 0 0 0 0 hp) rfl
+
+theorem BNOT_RR_exec (w0 : BitVec 16) (st st' : Cpu) (c : BitVec 8) (i : Instr)
+    (hp : Form.pat .BNOT_RR w0 0 0 0 0 = true) (hi : instrOf .BNOT_RR w0 0 0 0 0 = some i)
+    (h : exec w0 st = .ok c st') :
+    st' = { st with regs := (specRegCcr i st).1, ccr := (specRegCcr i st).2 } := by
+  rw [exec_eq_BNOT_RR w0 hp] at h
+  exact C04H.BNOT_RR w0 st st' c i hp hi h
+
+theorem exec_eq_BCLR_RR (w0 : BitVec 16) (hp : Form.pat .BCLR_RR w0 0 0 0 0 = true) : exec w0 = bmodRnRn .clr w0 := by
+  exact exec_of_leaf w0 _ _ (C07R.route_BCLR_RR w0 0 0 0 0 hp) rfl
+
+theorem BCLR_RR_exec (w0 : BitVec 16) (st st' : Cpu) (c : BitVec 8) (i : Instr)
+    (hp : Form.pat .BCLR_RR w0 0 0 0 0 = true) (hi : instrOf .BCLR_RR w0 0 0 0 0 = some i)
+    (h : exec w0 st = .ok c st') :
+    st' = { st with regs := (specRegCcr i st).1, ccr := (specRegCcr i st).2 } := by
+  rw [exec_eq_BCLR_RR w0 hp] at h
+  exact C04H.BCLR_RR w0 st st' c i hp hi h
+
+theorem exec_eq_BTST_RR (w0 : BitVec 16) (hp : Form.pat .BTST_RR w0 0 0 0 0 = true) : exec w0 = btstRnRn w0 := by
+  exact exec_of_leaf w0 _ _ (C07R.route_BTST_RR w0 0 0 0 0 hp) rfl
+
+theorem BTST_RR_exec (w0 : BitVec 16) (st st' : Cpu) (c : BitVec 8) (i : Instr)
+    (hp : Form.pat .BTST_RR w0 0 0 0 0 = true) (hi : instrOf .BTST_RR w0 0 0 0 0 = some i)
+    (h : exec w0 st = .ok c st') :
+    st' = { st with regs := (specRegCcr i st).1, ccr := (specRegCcr i st).2 } := by
+  rw [exec_eq_BTST_RR w0 hp] at h
+  exact C04H.BTST_RR w0 st st' c i hp hi h
+
+theorem exec_eq_BST_R (w0 : BitVec 16) (hp : Form.pat .BST_R w0 0 0 0 0 = true) : exec w0 = bstRn false w0 := by
+  exact exec_of_leaf w0 _ _ (C07R.route_BST_R w0 0 0 0 0 hp) rfl
+
+theorem BST_R_exec (w0 : BitVec 16) (st st' : Cpu) (c : BitVec 8) (i : Instr)
+    (hp : Form.pat .BST_R w0 0 0 0 0 = true) (hi : instrOf .BST_R w0 0 0 0 0 = some i)
+    (h : exec w0 st = .ok c st') :
+    st' = { st with regs := (specRegCcr i st).1, ccr := (specRegCcr i st).2 } := by
+  rw [exec_eq_BST_R w0 hp] at h
+  exact C04H.BST_R w0 st st' c i hp hi h
+
+theorem exec_eq_BIST_R (w0 : BitVec 16) (hp : Form.pat .BIST_R w0 0 0 0 0 = true) : exec w0 = bstRn true w0 := by
+  exact exec_of_leaf w0 _ _ (C07R.route_BIST_R w0 0 0 0 0 hp) rfl
+
+theorem BIST_R_exec (w0 : BitVec 16) (st st' : Cpu) (c : BitVec 8) (i : Instr)
+    (hp : Form.pat .BIST_R w0 0 0 0 0 = true) (hi : instrOf .BIST_R w0 0 0 0 0 = some i)
+    (h : exec w0 st = .ok c st') :
+    st' = { st with regs := (specRegCcr i st).1, ccr := (specRegCcr i st).2 } := by
+  rw [exec_eq_BIST_R w0 hp] at h
+  exact C04H.BIST_R w0 st st' c i hp hi h
+
+theorem exec_eq_BSET_I (w0 : BitVec 16) (hp : Form.pat .BSET_I w0 0 0 0 0 = true) : exec w0 = bmodRnImm .set w0 := by
+  exact exec_of_leaf w0 _ _ (C07R.route_BSET_I w0 0 0 0 0 hp) rfl
+
+theorem BSET_I_exec (w0 : BitVec 16) (st st' : Cpu) (c : BitVec 8) (i : Instr)
+    (hp : Form.pat .BSET_I w0 0 0 0 0 = true) (hi : instrOf .BSET_I w0 0 0 0 0 = some i)
+    (h : exec w0 st = .ok c st') :
+    st' = { st with regs := (specRegCcr i st).1, ccr := (specRegCcr i st).2 } := by
+  rw [exec_eq_BSET_I w0 hp] at h
+  exact C04H.BSET_I w0 st st' c i hp hi h
+
+theorem exec_eq_BNOT_I (w0 : BitVec 16) (hp : Form.pat .BNOT_I w0 0 0 0 0 = true) : exec w0 = bmodRnImm .not_ w0 := by
+  exact exec_of_leaf w0 _ _ (C07R.route_BNOT_I w0 0 0 0 0 hp) rfl
+
+theorem BNOT_I_exec (w0 : BitVec 16) (st st' : Cpu) (c : BitVec 8) (i : Instr)
+    (hp : Form.pat .BNOT_I w0 0 0 0 0 = true) (hi : instrOf .BNOT_I w0 0 0 0 0 = some i)
+    (h : exec w0 st = .ok c st') :
+    st' = { st with regs := (specRegCcr i st).1, ccr := (specRegCcr i st).2 } := by
+  rw [exec_eq_BNOT_I w0 hp] at h
+  exact C04H.BNOT_I w0 st st' c i hp hi h
+
+theorem exec_eq_BCLR_I (w0 : BitVec 16) (hp : Form.pat .BCLR_I w0 0 0 0 0 = true) : exec w0 = bmodRnImm .clr w0 := by
+  exact exec_of_leaf w0 _ _ (C07R.route_BCLR_I w0 0 0 0 0 hp) rfl
+
+theorem BCLR_I_exec (w0 : BitVec 16) (st st' : Cpu) (c : BitVec 8) (i : Instr)
+    (hp : Form.pat .BCLR_I w0 0 0 0 0 = true) (hi : instrOf .BCLR_I w0 0 0 0 0 = some i)
+    (h : exec w0 st = .ok c st') :
+    st' = { st with regs := (specRegCcr i st).1, ccr := (specRegCcr i st).2 } := by
+  rw [exec_eq_BCLR_I w0 hp] at h
+  exact C04H.BCLR_I w0 st st' c i hp hi h
+
+theorem exec_eq_BTST_I (w0 : BitVec 16) (hp : Form.pat .BTST_I w0 0 0 0 0 = true) : exec w0 = btstImmRn w0 := by
+  exact exec_of_leaf w0 _ _ (C07R.route_BTST_I w0 0 0 0 0 hp) rfl
+
+theorem BTST_I_exec (w0 : BitVec 16) (st st' : Cpu) (c : BitVec 8) (i : Instr)
+    (hp : Form.pat .BTST_I w0 0 0 0 0 = true) (hi : instrOf .BTST_I w0 0 0 0 0 = some i)
+    (h : exec w0 st = .ok c st') :
+    st' = { st with regs := (specRegCcr i st).1, ccr := (specRegCcr i st).2 } := by
+  rw [exec_eq_BTST_I w0 hp] at h
+  exact C04H.BTST_I w0 st st' c i hp hi h
+
+theorem exec_eq_BOR_R (w0 : BitVec 16) (hp : Form.pat .BOR_R w0 0 0 0 0 = true) : exec w0 = baccRn .or w0 := by
+  exact exec_of_leaf w0 _ _ (C07R.route_BOR_R w0 0 0 0 0 hp) rfl
+
+theorem BOR_R_exec (w0 : BitVec 16) (st st' : Cpu) (c : BitVec 8) (i : Instr)
+    (hp : Form.pat .BOR_R w0 0 0 0 0 = true) (hi : instrOf .BOR_R w0 0 0 0 0 = some i)
+    (h : exec w0 st = .ok c st') :
+    st' = { st with regs := (specRegCcr i st).1, ccr := (specRegCcr i st).2 } := by
+  rw [exec_eq_BOR_R w0 hp] at h
+  exact C04H.BOR_R w0 st st' c i hp hi h
+
+theorem exec_eq_BIOR_R (w0 : BitVec 16) (hp : Form.pat .BIOR_R w0 0 0 0 0 = true) : exec w0 = baccRn .ior w0 := by
+  exact exec_of_leaf w0 _ _ (C07R.route_BIOR_R w0 0 0 0 0 hp) rfl
+
+theorem BIOR_R_exec (w0 : BitVec 16) (st st' : Cpu) (c : BitVec 8) (i : Instr)
+    (hp : Form.pat .BIOR_R w0 0 0 0 0 = true) (hi : instrOf .BIOR_R w0 0 0 0 0 = some i)
+    (h : exec w0 st = .ok c st') :
+    st' = { st with regs := (specRegCcr i st).1, ccr := (specRegCcr i st).2 } := by
+  rw [exec_eq_BIOR_R w0 hp] at h
+  exact C04H.BIOR_R w0 st st' c i hp hi h
+
+theorem exec_eq_BXOR_R (w0 : BitVec 16) (hp : Form.pat .BXOR_R w0 0 0 0 0 = true) : exec w0 = baccRn .xor w0 := by
+  exact exec_of_leaf w0 _ _ (C07R.route_BXOR_R w0 0 0 0 0 hp) rfl
+
+theorem BXOR_R_exec (w0 : BitVec 16) (st st' : Cpu) (c : BitVec 8) (i : Instr)
+    (hp : Form.pat .BXOR_R w0 0 0 0 0 = true) (hi : instrOf .BXOR_R w0 0 0 0 0 = some i)
+    (h : exec w0 st = .ok c st') :
+    st' = { st with regs := (specRegCcr i st).1, ccr := (specRegCcr i st).2 } := by
+  rw [exec_eq_BXOR_R w0 hp] at h
+  exact C04H.BXOR_R w0 st st' c i hp hi h
+
+theorem exec_eq_BIXOR_R (w0 : BitVec 16) (hp : Form.pat .BIXOR_R w0 0 0 0 0 = true) : exec w0 = baccRn .ixor w0 := by
+  exact exec_of_leaf w0 _ _ (C07R.route_BIXOR_R w0 0 0 0 0 hp) rfl
+
+theorem BIXOR_R_exec (w0 : BitVec 16) (st st' : Cpu) (c : BitVec 8) (i : Instr)
+    (hp : Form.pat .BIXOR_R w0 0 0 0 0 = true) (hi : instrOf .BIXOR_R w0 0 0 0 0 = some i)
+    (h : exec w0 st = .ok c st') :
+    st' = { st with regs := (specRegCcr i st).1, ccr := (specRegCcr i st).2 } := by
+  rw [exec_eq_BIXOR_R w0 hp] at h
+  exact C04H.BIXOR_R w0 st st' c i hp hi h
+
+theorem exec_eq_BAND_R (w0 : BitVec 16) (hp : Form.pat .BAND_R w0 0 0 0 0 = true) : exec w0 = baccRn .and w0 := by
+  exact exec_of_leaf w0 _ _ (C07R.route_BAND_R w0 0 0 0 0 hp) rfl
+
+theorem BAND_R_exec (w0 : BitVec 16) (st st' : Cpu) (c : BitVec 8) (i : Instr)
+    (hp : Form.pat .BAND_R w0 0 0 0 0 = true) (hi : instrOf .BAND_R w0 0 0 0 0 = some i)
+    (h : exec w0 st = .ok c st') :
+    st' = { st with regs := (specRegCcr i st).1, ccr := (specRegCcr i st).2 } := by
+  rw [exec_eq_BAND_R w0 hp] at h
+  exact C04H.BAND_R w0 st st' c i hp hi h
+
+theorem exec_eq_BIAND_R (w0 : BitVec 16) (hp : Form.pat .BIAND_R w0 0 0 0 0 = true) : exec w0 = baccRn .iand w0 := by
+  exact exec_of_leaf w0 _ _ (C07R.route_BIAND_R w0 0 0 0 0 hp) rfl
+
+theorem BIAND_R_exec (w0 : BitVec 16) (st st' : Cpu) (c : BitVec 8) (i : Instr)
+    (hp : Form.pat .BIAND_R w0 0 0 0 0 = true) (hi : instrOf .BIAND_R w0 0 0 0 0 = some i)
+    (h : exec w0 st = .ok c st') :
+    st' = { st with regs := (specRegCcr i st).1, ccr := (specRegCcr i st).2 } := by
+  rw [exec_eq_BIAND_R w0 hp] at h
+  exact C04H.BIAND_R w0 st st' c i hp hi h
+
+theorem exec_eq_BLD_R (w0 : BitVec 16) (hp : Form.pat .BLD_R w0 0 0 0 0 = true) : exec w0 = baccRn .ld w0 := by
+  exact exec_of_leaf w0 _ _ (C07R.route_BLD_R w0 0 0 0 0 hp) rfl
+
+theorem BLD_R_exec (w0 : BitVec 16) (st st' : Cpu) (c : BitVec 8) (i : Instr)
+    (hp : Form.pat .BLD_R w0 0 0 0 0 = true) (hi : instrOf .BLD_R w0 0 0 0 0 = some i)
+    (h : exec w0 st = .ok c st') :
+    st' = { st with regs := (specRegCcr i st).1, ccr := (specRegCcr i st).2 } := by
+  rw [exec_eq_BLD_R w0 hp] at h
+  exact C04H.BLD_R w0 st st' c i hp hi h
+
+theorem exec_eq_BILD_R (w0 : BitVec 16) (hp : Form.pat .BILD_R w0 0 0 0 0 = true) : exec w0 = baccRn .ild w0 := by
+  exact exec_of_leaf w0 _ _ (C07R.route_BILD_R w0 0 0 0 0 hp) rfl
+
+theorem BILD_R_exec (w0 : BitVec 16) (st st' : Cpu) (c : BitVec 8) (i : Instr)
+    (hp : Form.pat .BILD_R w0 0 0 0 0 = true) (hi : instrOf .BILD_R w0 0 0 0 0 = some i)
+    (h : exec w0 st = .ok c st') :
+    st' = { st with regs := (specRegCcr i st).1, ccr := (specRegCcr i st).2 } := by
+  rw [exec_eq_BILD_R w0 hp] at h
+  exact C04H.BILD_R w0 st st' c i hp hi h
 
 end H8.Props.C07E
